@@ -82,7 +82,7 @@ func (fsm *FSM) Apply(log *raft.Log) interface{} {
 			}
 
 		case "delete-key":
-			if err := fsm.options.DeleteKey(ctx, request.Key); err != nil {
+			if err := fsm.options.DeleteKey(context.WithValue(ctx, "ExpiredAt", request.ExpiredAt), request.Key); err != nil {
 				return internal.ApplyResponse{
 					Error:    err,
 					Response: nil,
